@@ -110,8 +110,14 @@ class OrderAnalyzer(Analyzer):
                 for t in tgts:
                     for tt in (t.elts if isinstance(t, (ast.Tuple, ast.List)) else [t]):
                         if isinstance(tt, ast.Subscript) and nonlocal_recv(tt.value):
-                            kt = self.ty(tt.value, fc)
-                            return ('ordered', f'{q} stores into {short(tt.value, 40)}[...] (insertion-ordered)')
+                            if self.ty(tt.value, fc).kind == 'set':
+                                continue
+                            where = self.res.attr_iterated(tt.value.attr) if isinstance(tt.value, ast.Attribute) else 'parameter / closure variable'
+                            if where:
+                                return ('ordered', f'{q} stores into {short(tt.value, 40)}[...] (insertion-ordered, iterated at {where})')
+                            if unknown is None:
+                                unknown = ('unknown', f'{q} stores into {short(tt.value, 40)}[...], which is not seen to be iterated')
+                            continue
                         if isinstance(tt, ast.Attribute) and unknown is None:
                             if not (isinstance(n, ast.Assign) and isinstance(n.value, ast.Constant)):
                                 unknown = ('unknown', f'{q} assigns {short(tt, 40)}')
@@ -142,6 +148,10 @@ class OrderAnalyzer(Analyzer):
                     continue
                 fns = self.callees(n, fc)
                 if not fns:
+                    cn = attr_chain(n.func) or ''
+                    if cn and (self.res.resolve_cls(fc.mod, cn) is not None or (isinstance(n.func, ast.Name) and cn[:1].isupper())
+                               or cn in ('deque', 'defaultdict', 'collections.deque', 'collections.defaultdict', 'super')):
+                        continue     # constructing a fresh object
                     if unknown is None:
                         unknown = ('unknown', f'{q} calls unresolved {short(n.func, 40)}')
                     continue
@@ -173,6 +183,33 @@ class OrderAnalyzer(Analyzer):
             res = self.follow_local(param, fc, depth + 1)
         else:
             res = self.follow_local(param, fc, depth + 1)
+        self._param_memo[key] = res
+        return res
+
+    def set_param_summary(self, mod: Module, cls: T.Optional[ast.ClassDef], fn: FuncNode, param: str, depth: int) -> V:
+        """A *set* is bound to `param` (which is not declared a set): classify every use of it in the callee."""
+        key = (id(fn), param + '/set')
+        if key in self._param_memo:
+            return self._param_memo[key]
+        self._param_memo[key] = ('unknown', f'recursive use of {fn.name}({param})')
+        fc = self.fc_for(mod, fn, cls=cls)
+        res: V
+        if is_abstract_stub(fn):
+            res = ('unknown', f'{fc.qual} is an abstract stub')
+        elif depth > 4:
+            res = ('unknown', 'interprocedural depth')
+        else:
+            vs: T.List[V] = []
+            t = Ty('set', None, mod, f'set bound to parameter {param} of {fc.qual}')
+            for u in fc.loads.get(param, []):
+                s = self.consume(u, t, fc)   # type: ignore[attr-defined]
+                if s is None:
+                    continue
+                if s.verdict == 'violation':
+                    vs.append(('escapes', f'{s.consumer}: {s.reason}'))
+                elif s.verdict == 'info':
+                    vs.append(('unknown', f'{s.consumer}: {s.reason}'))
+            res = _combine(vs, 'escapes')
         self._param_memo[key] = res
         return res
 
@@ -308,6 +345,10 @@ class OrderAnalyzer(Analyzer):
             return self.use_verdict(p, fc, depth + 1)
         if isinstance(p, ast.Set):
             return ('benign', 'element of a set')
+        if isinstance(p, (ast.ListComp, ast.DictComp, ast.GeneratorExp)):
+            return self.use_verdict(p, fc, depth + 1)     # element / key / value of a comprehension result
+        if isinstance(p, ast.SetComp):
+            return ('benign', 'element of a set')
         if isinstance(p, ast.IfExp):
             if p.test is u:
                 return ('benign', 'truth test')
@@ -382,7 +423,7 @@ class OrderAnalyzer(Analyzer):
             if not seq and pann is not None and self.res.ann_ty(pann, m2).kind == 'set':
                 vs.append(('benign', f'parameter {f2.name}({pn}) is declared a set (consumers are judged in the callee)'))
                 continue
-            r = self.param_summary(m2, c2, f2, pn, depth + 1)
+            r = self.param_summary(m2, c2, f2, pn, depth + 1) if seq else self.set_param_summary(m2, c2, f2, pn, depth + 1)
             q = f'{c2.name}.{f2.name}' if c2 is not None else f2.name
             if r[0] == 'benign':
                 vs.append(('benign', f'{q}({pn}) consumes it order-insensitively'))
